@@ -83,6 +83,7 @@ def apply(op, a, b):
 
 
 def run(shard, rec):
+    budget_hits = [0]
     from vlib import env
     env.prepare()
     from vlib import sim
@@ -179,11 +180,16 @@ def run(shard, rec):
             for r in rs:
                 out.append(await mpc.output(r))
             return out
-        w = sim.World(m, t, no_prss, seed=sseed, policy=policy).run(program, cpu_seconds=90)
+        w = sim.World(m, t, no_prss, seed=sseed, policy=policy).run(program, cpu_seconds=20)
         res = w.ok_results()
         what = f'{shard["name"]} SecFlt({l})'
         if res is None:
             rec.violation(f'{what} ops {ops}: run did not complete {w.status} {[r for r in w.results() if r[0] == "EXC"][:1]} {w.error_summaries()[:1]}', {'mechanism': 'no-completion', 'l': l}, {'case': case}, case=case)
+            if w.status in ('STEP-LIMIT', 'CPU-LIMIT'):
+                budget_hits[0] += 1
+                if budget_hits[0] >= 5:
+                    rec.note_side(f'{shard["name"]}: {budget_hits[0]} programs exhausted their step/CPU budget (all reported); the rest of this shard is not run')
+                    return
             continue
         for pid_, r_ in enumerate(res):
             if len(r_) > len(ops):
